@@ -217,12 +217,17 @@ where
     }
 
     // Query apply cache
+    //
+    // The result depends on the number of levels (the tautologies below the
+    // last literal of `vars`), so this number is part of the cache key.
+    // Otherwise, a result cached before adding variables would be wrong.
+    let num_levels = manager.num_levels();
     stat!(cache_query Restrict);
-    if let Some(res) =
-        manager
-            .apply_cache()
-            .get(manager, Restrict, &[f.borrowed(), vars.borrowed()])
-    {
+    if let Some(([res], [])) = manager.apply_cache().get_extended(
+        manager,
+        Restrict,
+        (&[f.borrowed(), vars.borrowed()], &[num_levels]),
+    ) {
         stat!(cache_hit Restrict);
         return Ok(res);
     }
@@ -239,9 +244,12 @@ where
     let res = reduce(manager, level, hi.into_edge(), lo.into_edge(), Restrict)?;
 
     // Add to apply cache
-    manager
-        .apply_cache()
-        .add(manager, Restrict, &[f, vars], res.borrowed());
+    manager.apply_cache().add_extended(
+        manager,
+        Restrict,
+        (&[f, vars], &[num_levels]),
+        (&[res.borrowed()], &[]),
+    );
 
     Ok(res)
 }
